@@ -247,4 +247,28 @@ theorem noticedB_step (s : St) (a : Act) (h : NoticedB s) : NoticedB (step s a) 
         refine ⟨deliver_noticed 16 s 0 (by rw [hidle]; simp) ⟨h1, h2⟩, ?_⟩
         rw [deliver_apiRem]; exact hb
 
+/-- delivering blocks none of which carries a dispute (no RPC is needed), with no API thread inside its
+critical section, ends with the flag up — whether the list is exhausted or a download fails on the way -/
+theorem deliver_quiet_raises_flag : ∀ (fuel : Nat) (s : St) (i : Nat),
+    (∀ d ∈ s.pending, d = false) → apiHoldsCache s = false → s.pending.length < fuel →
+    (deliver s fuel i).flag = true := by
+  intro fuel
+  induction fuel with
+  | zero => intro s i _ _ h; omega
+  | succ n ih =>
+    intro s i hq ha hl
+    unfold deliver
+    cases hp : s.pending with
+    | nil => simp
+    | cons d rest =>
+      simp only
+      by_cases hf : s.failAt = some i
+      · simp [hf]
+      · have hd : d = false := hq d (by simp [hp])
+        simp only [hf, if_false, ha, hd, Bool.false_eq_true]
+        apply ih
+        · intro d' hd'; exact hq d' (by simp [hp, hd'])
+        · simpa [apiHoldsCache] using ha
+        · simp [hp] at hl ⊢; omega
+
 end Teos.Outage
